@@ -443,13 +443,6 @@ class Exec:
                     return (f"invalid-value-held:{type(p).__name__}",
                             f"{p.extended_key()} holds {canon(p.value)} which does not satisfy the type/bounds/options it was declared with "
                             f"({ {k: rn['spec'].get(k) for k in ('kind', 'mn', 'mx', 'opts', 'qcls') if k in rn['spec']} })")
-        rd = self.ref_dump()
-        if now != rd:
-            diff = next((i for i, (a, b) in enumerate(zip(now, rd)) if a != b), min(len(now), len(rd)))
-            return (f"tree-differs-from-reference:{t}",
-                    f"after {op[:2]} the parameter tree is not what the accepted operations so far imply: entry {diff} is "
-                    f"{now[diff] if diff < len(now) else None}, expected {rd[diff] if diff < len(rd) else None} "
-                    "(extended key, identity, value, default; pre-order)")
         for p, _d in self.walk():
             cls = type(p).__name__
             f = self.first.get(id(p))
@@ -499,6 +492,13 @@ class Exec:
             elif doc_valid(pre_target, v) and not pre_target.read_only:
                 return (f"model-set-parameter-raises:{exc_name}",
                         f"DSOLModel.set_parameter({op[1]!r}, {canon(v)}) raised {exc_name} for a valid value of a writable {type(pre_target).__name__}")
+        rd = self.ref_dump()
+        if now != rd:
+            diff = next((i for i, (a, b) in enumerate(zip(now, rd)) if a != b), min(len(now), len(rd)))
+            return (f"tree-differs-from-reference:{t}",
+                    f"after {op[:2]} the parameter tree is not what the accepted operations so far imply: entry {diff} is "
+                    f"{now[diff] if diff < len(now) else None}, expected {rd[diff] if diff < len(rd) else None} "
+                    "(extended key, identity, value, default; pre-order)")
         return None
 
 
